@@ -523,6 +523,25 @@ def step_back_rule(ctx, P, rule):
             ctx.ob(rule, bad is None, fn.name, 'step back on an equal entry', d.where(),
                    'taken at every index level above 1' if bad is None else
                    'the step back is taken only while %s, which is false at level %d: a run of equal timestamps that straddles a chunk boundary of the level below that one is entered after its first members' % bad)
+    # ... and no other compare admits equality: an arm `requested >= entry` (or `entry <= requested`) selects an equal entry
+    # without the step back
+    for b in fn.blocks.values():
+        c = strip_casts(b.cond) if b.cond is not None else None
+        if c is None or c.get('op') != 'bin' or c['o'] not in ('>=', '<='):
+            continue
+        l, r = strip_casts(c['k'][0]), strip_casts(c['k'][1])
+        l_entry = any(m.get('op') == 'member' and m.get('field') == 'timestamp' for m in walk(l))
+        r_entry = any(m.get('op') == 'member' and m.get('field') == 'timestamp' for m in walk(r))
+        l_req = l.get('op') == 'ref' and l.get('name') == 'timestamp'
+        r_req = r.get('op') == 'ref' and r.get('name') == 'timestamp'
+        if not ((l_req and r_entry) or (l_entry and r_req)):
+            continue
+        sel = [ev for ev in fn.stores() if ev.k == 'store' and strip_casts(ev.store_parts()[0]).get('op') == 'ref' and (b.id, 'T') in control_deps_transitive(fn, ev.block.id)]
+        steps = [ev for ev in sel if ev.store_parts()[2] in ('pre--', 'post--')]
+        n += 1
+        ctx.ob(rule, bool(steps) or not sel, fn.name, 'a compare that admits equality steps back', '%s:%d' % (fn.file, b.line),
+               'no selection under it / it steps back' if (steps or not sel) else
+               'under %s an entry equal to the requested timestamp is selected without the step back: when the run of equal timestamps began in the chunk before, its first members are not delivered' % show(c)[:70])
     ctx.floor('equality arms of the time-series seek', n, 1)
 
 
